@@ -388,6 +388,7 @@ var c08DestinationAllowed = map[string]string{
 	"cmd.readSeeds":        "skips a seed that is the destination itself (comparison only)",
 	"cmd.readSeedDirs":     "skips index files describing the destination (comparison only)",
 	"cmd.writeInplace":     "assembly in place, only behind --in-place (C08.in-place-by-flag-only)",
+	"desync.AssembleFile":  "the in-place wrapper inlined: assembly in place, only behind --in-place (C08.in-place-by-flag-only)",
 	"cmd.writeWithTmpFile": "assembly into a temp file that is renamed onto the destination",
 	"os.Stat":              "read-only",
 	"os.Lstat":             "read-only",
